@@ -37,6 +37,22 @@ class Twin:
         return acc, ann
 
 
+def payload(rng, n):
+    """binary data: a third of the chunks end or begin with NUL bytes, some are all NUL or all 0xff"""
+    b = bytearray(rng.randrange(256) for _ in range(n))
+    r = rng.random()
+    if r < 0.2:
+        k = rng.randint(1, min(3, n))
+        b[n - k:] = bytes(k)
+    elif r < 0.28:
+        b[:1] = b"\0"
+    elif r < 0.33:
+        b = bytearray(n)
+    elif r < 0.36:
+        b = bytearray(b"\xff" * n)
+    return bytes(b)
+
+
 class C28(Check):
     pid = "C28"
     props_file = "Props/C28.v"
@@ -63,9 +79,9 @@ class C28(Check):
             slow = rng.random() < 0.5
             for k in range(rng.randint(4, 30)):
                 if rng.random() < 0.25:
-                    evs.append(("write", bytes(rng.randrange(256) for _ in range(rng.choice([1, 3, 22, 23, 40, 5])))))
+                    evs.append(("write", payload(rng, rng.choice([1, 3, 22, 23, 40, 5]))))
                 else:
-                    ann = bytes(rng.randrange(256) for _ in range(rng.randint(1, 22))) if rng.random() < 0.35 else None
+                    ann = payload(rng, rng.randint(1, 22)) if rng.random() < 0.35 else None
                     evs.append(("cycle", {"init": rng.random() < 0.8, "accept": rng.random() < (0.3 if slow else 0.8), "announce": ann}))
             out.append(evs)
         return out
@@ -206,7 +222,7 @@ class C28(Check):
 
     def rule(self):
         return ("histories of 4-30 events: application writes of 1-40 bytes and cycles whose oracle decides init reaction, transmit accept (slow terminals accept "
-                "with probability 0.3) and announcement of received chunks of 0-22 bytes; both directions active at once; non-trivial = at least one chunk accepted and one delivered")
+                "with probability 0.3) and announcement of received chunks of 0-22 bytes (binary data, a third with leading / trailing NUL bytes, all NUL or all 0xff); both directions active at once; non-trivial = at least one chunk accepted and one delivered")
 
     def distribution(self, cases, observed):
         d = {"cycles": 0, "writes": 0, "accepted": 0, "delivered": 0}
